@@ -7,6 +7,7 @@ package main
 
 import (
 	"encoding/binary"
+	"encoding/json"
 	"fmt"
 	"math"
 	"os"
@@ -195,6 +196,17 @@ func indepObserve(path string, back map[string]string) (lib.Ev, lib.Ev) {
 				if o.Type.Class == 0 && o.Type.Bits&0x08 != 0 {
 					d.Sign = 1
 				}
+				if o.Type.Class == 8 {
+					var sb strings.Builder
+					for i, nm := range o.Type.EnumNames {
+						v := "?"
+						if i < len(o.Type.EnumValues) {
+							v = fmt.Sprintf("%d", o.Type.EnumValues[i])
+						}
+						fmt.Fprintf(&sb, "%s=%s;", nm, v)
+					}
+					d.Detail = sb.String()
+				}
 			}
 			d.Dims, d.Max = toInts(o.Dims), toInts(o.MaxDims)
 			d.Chunked = o.Layout == 2
@@ -266,4 +278,71 @@ func indepObserve(path string, back map[string]string) (lib.Ev, lib.Ev) {
 	lay = lib.Ev{"op": "layout", "usable": true, "filesize": len(b), "eoa": eoa, "sb": f.SbVersion, "extents": exts, "broken": brk,
 		"nrules": nrules, "errs": errs, "unsupported": uns, "nobjs": len(f.Objs)}
 	return ev, lay
+}
+
+// runC05Corpus is the decoder's own qualification: it walks reference files (produced by the HDF5 C library) with
+// the independent decoder and reports, per file, every rule that does not hold and every overlap of two extents.
+// A rule that fails on a well-formed reference file is a defect of the decoder (or an over-strict rule), never
+// of the library under test: the check that uses the decoder refuses to judge (exit 2) when this happens.
+func runC05Corpus(args []string) {
+	in, out, _, _, workers := stdFlags("c05corpus", args)
+	raw, err := lib.ReadCases(in)
+	lib.Must(err, "read file list")
+	tr := lib.NewTrace()
+	lib.ForEach(len(raw), workers, func(i int) {
+		var c struct {
+			File string `json:"file"`
+		}
+		lib.Must(json.Unmarshal(raw[i], &c), "parse case")
+		ev := lib.Ev{"op": "corpus", "file": c.File, "rules": 0, "objects": 0, "extents": 0, "broken": []string{}, "overlaps": []string{}, "errs": []string{}, "res": "ok"}
+		b, err := os.ReadFile(c.File)
+		if err != nil {
+			ev["res"] = "unreadable"
+			tr.Put(i, []lib.Ev{ev})
+			return
+		}
+		var f *indep.File
+		if res, msg := lib.Call(func() error { f = indep.Decode(b); return nil }); res != "ok" {
+			ev["res"], ev["errs"] = "panic", []string{msg}
+			tr.Put(i, []lib.Ev{ev})
+			return
+		}
+		brk, nrules := []string{}, 0
+		type span struct {
+			s, e  int
+			k, ow string
+		}
+		spans := []span{}
+		for _, e := range f.Extents {
+			if e.End > e.Start {
+				spans = append(spans, span{e.Start, e.End, e.Kind, e.Owner})
+			}
+			for k, ok := range e.Rules {
+				nrules++
+				if !ok {
+					brk = append(brk, fmt.Sprintf("%s (%s %s @%d)", k, e.Kind, e.Owner, e.Start))
+				}
+			}
+		}
+		sort.Strings(brk)
+		sort.SliceStable(spans, func(a, b int) bool { return spans[a].s < spans[b].s })
+		ov := []string{}
+		for k := 1; k < len(spans); k++ {
+			if spans[k].s < spans[k-1].e && len(ov) < 8 {
+				ov = append(ov, fmt.Sprintf("%s %s [%d,%d) / %s %s [%d,%d)", spans[k-1].k, spans[k-1].ow, spans[k-1].s, spans[k-1].e, spans[k].k, spans[k].ow, spans[k].s, spans[k].e))
+			}
+		}
+		errs := f.Errs
+		if errs == nil {
+			errs = []string{}
+		}
+		if len(errs) > 6 {
+			errs = errs[:6]
+		}
+		ev["rules"], ev["objects"], ev["extents"], ev["broken"], ev["overlaps"], ev["errs"] = nrules, len(f.Objs), len(spans), brk, ov, errs
+		tr.Put(i, []lib.Ev{ev})
+	})
+	n, err := tr.WriteFile(out)
+	lib.Must(err, "write trace")
+	fmt.Printf("c05corpus: files=%d events=%d\n", len(raw), n)
 }
